@@ -89,7 +89,7 @@ theorem copyBufs_bal : ∀ (bs : List (Option Nat)) (as : List BufAct) {h : Heap
         by_cases hu : a = .trim ∧ bf.used = 0
         · exact skip (by simpa [hu] using he)
         · simp only [hu, if_false] at he
-          generalize (if a = BufAct.trim then ({ cap := bf.used, used := bf.used, val := bf.val } : Buf) else bf) = nbf at he
+          generalize (if a = BufAct.trim then ({ cap := bf.used, used := bf.used, val := bf.val } : Buf) else if a = BufAct.garble then ({ cap := bf.cap, used := bf.used, val := bf.val + 1 } : Buf) else bf) = nbf at he
           obtain ⟨bud, hta, htb⟩ := takeAlloc_spec h
           unfold allocBuf at he
           cases hok : (takeAlloc h).2 with
@@ -367,7 +367,7 @@ theorem sqfsCopy_bal (D : Kind → CopyDesc) (hD : ∀ k, WfDesc (D k)) : ∀ n,
     intro h U P PB x hb hxl hxn h' r he
     obtain ⟨o, hox⟩ := Option.isSome_iff_exists.mp hxl
     obtain ⟨hd, hc, _, _, hrefs, hviews⟩ := hb.live x o hox (by simp)
-    obtain ⟨hw1, hw2, hw3, hw4, _, hw6⟩ := hD o.kind
+    obtain ⟨hw1, hw2, hw3, hw4, _, hw6, _⟩ := hD o.kind
     have hrl : ∀ r, some r ∈ o.refs → (h.objs r).isSome ∧ r < n :=
       fun r hr => ⟨hb.ref_live hox (by simp) hr, by have := hrefs r hr; omega⟩
     have hbl : ∀ b, some b ∈ o.bufs → (h.bufs b).isSome := fun b hbm => hb.buf_live hox (by simp) hbm
